@@ -288,6 +288,8 @@ func runC05(env *Env, rc *RunCtx) {
 		runC05Crash(env, rc, sys)
 	case "isolation", "isolation-wal":
 		runC05Isolation(env, rc, sys)
+	case "stmt-interleave":
+		runC05StmtInterleave(env, rc, sys)
 	default:
 		runC05Faults(env, rc, sys)
 	}
